@@ -264,6 +264,11 @@ def _patch_obj(
     #
     # We'll fix these "sparse arrays" after the patch has been applied.
     for part in parts[:-1]:
+        if isinstance(_obj, list):
+            # A copy of a whole array, from an earlier selection of one of
+            # this node's ancestors. It has an item at every index already.
+            _obj = _obj[part]  # type: ignore
+            continue
         if part not in _obj:
             _obj[part] = {}  # type: ignore
         _obj = _obj[part]
